@@ -6,6 +6,7 @@ From RV Require Import Model.RtpLib.
 From RV Require Import Model.Rtp.
 From RV Require Import Model.Nack.
 From RV Require Import Model.Rtcp.
+From RV Require Import Model.NackSend.
 Import ListNotations.
 Open Scope Z_scope.
 
@@ -32,6 +33,20 @@ Definition header_eqb (a b : header) : bool :=
 Definition packet_eqb (a b : packet) : bool :=
   header_eqb (p_hdr a) (p_hdr b) && zlist_eqb (p_payload a) (p_payload b) && (p_padlen a =? p_padlen b).
 
+Inductive sop : Type :=
+| SSent (p : packet)                    (* on_packet_sent *)
+| SSetRtx (ssrc : Z)                    (* set_rtx(Some{rtx_ssrc}) / set_rtx(None) = 0 *)
+| SNack (seqs : list Z) (now : Z).      (* packets_for_nack(seqs, t0 + now microseconds) *)
+
+Fixpoint sender_run (h : shandler) (ops : list sop) : list (Z * list packet * Z) :=
+  match ops with
+  | [] => []
+  | SSent p :: t => let h' := sh_on_sent h p in (sb_len (sh_buf h'), [], sh_supp h') :: sender_run h' t
+  | SSetRtx s :: t => let h' := sh_set_rtx h s in (sb_len (sh_buf h'), [], sh_supp h') :: sender_run h' t
+  | SNack seqs now :: t =>
+      let '(h', out) := sh_packets_for_nack h seqs now in (sb_len (sh_buf h'), out, sh_supp h') :: sender_run h' t
+  end.
+
 Inductive case : Type :=
 | KParse (raw : list Z) (impl : res packet)                         (* RtpPacket::parse *)
 | KMarshal (p : packet) (impl : res (list Z))                        (* RtpPacket::marshal *)
@@ -43,7 +58,8 @@ Inductive case : Type :=
 | KRtxUnwrap (p : packet) (ssrc pt : Z) (impl : option packet)       (* rtx::unwrap_rtx_packet *)
 | KGap (pkts : list (Z * Z)) (impl : list (option (list Z)))         (* DefaultRtpReceiverNackHandler, (seq, ssrc) per packet *)
 | KRtcpMarshal (ps : list rtcp) (impl : res (list Z))                (* marshal_rtcp_packets *)
-| KRtcpParse (raw : list Z) (impl : res (list rtcp)).                (* parse_rtcp_packets *)
+| KRtcpParse (raw : list Z) (impl : res (list rtcp))                 (* parse_rtcp_packets *)
+| KSender (max : Z) (ops : list sop) (impl : list (Z * list packet * Z)). (* DefaultRtpSenderNackHandler: per op (buffered count, packets handed out, suppressed counter) *)
 
 Fixpoint pairs_eqb (a b : list (Z * Z)) : bool :=
   match a, b with
@@ -96,7 +112,11 @@ Definition rtcp_eqb (a b : rtcp) : bool :=
   | _, _ => false
   end.
 
+Definition sobs_eqb (a b : Z * list packet * Z) : bool :=
+  let '(c1, o1, s1) := a in let '(c2, o2, s2) := b in (c1 =? c2) && list_eqb packet_eqb o1 o2 && (s1 =? s2).
+
 Inductive out : Type :=
+| OSender (r : list (Z * list packet * Z))
 | ORtcp (r : res (list rtcp))
 | OPairs (r : list (Z * Z))
 | OList (r : list Z)
@@ -121,6 +141,7 @@ Definition model_out (c : case) : out :=
   | KGap pk _ => OGap (gap_outs nack_init pk)
   | KRtcpMarshal ps _ => OBytes (marshal_rtcp ps)
   | KRtcpParse raw _ => ORtcp (parse_rtcp raw)
+  | KSender mx ops _ => OSender (sender_run (sh_new mx) ops)
   end.
 
 Definition check_case (c : case) : bool :=
@@ -136,6 +157,7 @@ Definition check_case (c : case) : bool :=
   | KGap pk impl => gap_run nack_init pk impl
   | KRtcpMarshal ps impl => res_eqb zlist_eqb (marshal_rtcp ps) impl
   | KRtcpParse raw impl => res_eqb (list_eqb rtcp_eqb) (parse_rtcp raw) impl
+  | KSender mx ops impl => list_eqb sobs_eqb (sender_run (sh_new mx) ops) impl
   end.
 
 Fixpoint bad_from (i : Z) (cs : list case) : list Z :=
